@@ -10,7 +10,7 @@ OPS = ("get_byte", "get_bytes", "get_char", "get_short", "get_three", "get_int",
        "mode_on", "mode_off", "next_chunk", "slice", "slice_default", "remaining", "get_bytes_zero")
 HOPS = ("get_byte", "get_short", "get_bytes", "get_string", "get_fixed_string_padded", "get_encoded_string", "mode_on", "mode_off", "next_chunk", "slice")
 BOUNDS = {"quick": "step: every byte string of length 0..3 x every reachable state x each of 19 operations with arguments 0..n+2; histories (observed and blind): all sequences of length <= 2 over 10 operation kinds, data length 2",
-          "thorough": "step: every byte string of length 0..6; histories: all sequences of length <= 3 over 10 operation kinds, data length 4"}
+          "thorough": "step: every byte string of length 0..5; histories (observed and blind): all sequences of length <= 3 over 10 operation kinds, data length 3"}
 OUTSIDE = "data longer than the bound; negative arguments (excluded by the property, only their ValueError is checked); mutation of a caller-owned buffer behind the memoryview"
 ASSUMPTIONS = ["every reachable reader state is reached by the canonical prefix [chunked on; k x next_chunk; chunked off; get_bytes(j); set mode] (argued in DESIGN.md section 7 C05)"]
 
@@ -18,7 +18,7 @@ ASSUMPTIONS = ["every reachable reader state is reached by the canonical prefix 
 def jobs(tier):
     q = tier == "quick"
     js = []
-    for n in range(0, (3 if q else 6) + 1):
+    for n in range(0, (3 if q else 5) + 1):
         for op in OPS:
             if q and n >= 4 and op in ("slice", "slice_default"):
                 continue       # the slice obligations (slice driven in chunked mode, slice of slice) are the heaviest: n <= 3 in the quick tier
@@ -28,7 +28,7 @@ def jobs(tier):
         for op in ("next_chunk", "get_byte", "get_string", "get_short", "slice_default", "mode_off"):
             js.append(dict(name=f"step-blind[n={n},{op}]", fn="step", args=[n, op, True], collect_models=1,
                            expect=["post-state: position equals the model's"]))
-    hn, depth = (2, 2) if q else (4, 3)
+    hn, depth = (2, 2) if q else (3, 3)
     for d in range(1, depth + 1):
         for ops in itertools.product(HOPS, repeat=d):
             js.append(dict(name=f"history[n={hn},{'+'.join(ops)}]", fn="history", args=[hn, list(ops)], collect_models=1))
